@@ -241,7 +241,7 @@ theorem setSleep_spec (warm : Bool) (t : ChipTrack) (hc : Clean t) (ha : Aw t) :
   show Clean (step126 n t _) ∧ (warm = true → t.items.le (step126 n t _).items)
   rw [step126_aw ha, opSetSleep]
   obtain ⟨c1, c2⟩ := hc
-  cases warm <;> simp +decide [apply126, decode126, Clean, c1, c2, byte, Items.le_refl]
+  cases warm <;> simp +decide [apply126, decode126, Clean, c1, c2, Items.le_refl]
 
 theorem reset_spec (t : ChipTrack) (hc : Clean t) :
     wp .sx126x n reset (fun _ t' => Clean t') (fun a t' => Clean t' ∧ a.infra) t := by
